@@ -86,7 +86,12 @@ def gen_case(rng):
         evs = rng.choice([e for e in events if e])
         order.append(evs.pop(0))
 
+    waited = list()
+    if rng.random() < 0.3:
+        for t in rng.sample(tasks, min(len(tasks), rng.randint(1, 2))):
+            waited.append([t['uid'], rng.choice(_ORDER[1:-1])])
     return {'pids': pids, 'tasks': tasks, 'events': order,
+            'waited': waited,
             'foreign': rng.random() < 0.3,
             'resubmit': rng.random() < 0.4}
 
@@ -151,6 +156,30 @@ def run_case(case, res):
                 res.count('resubmissions')
                 make_task(tm, 'resub.%d' % counter[0])
         tm.register_callback(resubmit)
+
+    # the application has been waiting on tasks earlier on (for a non-final
+    # state, with a timeout): whatever that call did must not change who is
+    # failed when a pilot ends later
+    if case.get('waited'):
+        import radical.pilot.task as m_task
+        class _VT(object):
+            now = 1000.0
+            def time(self): return self.now
+            def sleep(self, dt): self.now += dt
+            def __getattr__(self, name):
+                import time as _t
+                return getattr(_t, name)
+        saved, m_task.time = m_task.time, _VT()
+        try:
+            for uid, st in case['waited']:
+                if uid in tasks:
+                    res.count('earlier_wait_calls')
+                    try:
+                        tasks[uid].wait(state=st, timeout=0.3)
+                    except Exception:
+                        pass
+        finally:
+            m_task.time = saved
 
     seq = list(case['events'])
     if foreign:
